@@ -630,6 +630,45 @@ def error_guards(syn, fn, depth=2):
     return out
 
 
+def crossed_arguments(fns, scope=lambda f: True):
+    """calls that hand two parameters of the enclosing function to a callee *crosswise*: f(a, b) calls g(b, a) where g's parameters at those
+    positions are called a and b (all candidates for g by name and arity agree on the parameter names).  -> [(caller qual, callee, a, b)]"""
+    by_name = {}
+    for g in fns:
+        if g.get("sig"):
+            by_name.setdefault(g["name"], []).append(g)
+
+    def pnames(g, method):
+        ps = [i.get("pat", {}).get("name") for i in g["sig"]["inputs"]]
+        return ps[1:] if method and ps and ps[0] == "self" else ps
+    out = []
+    for F in fns:
+        if not F.get("body") or not scope(F):
+            continue
+        fp = {p_ for p_ in pnames(F, False) if p_ and p_ != "self"}
+        if len(fp) < 2:
+            continue
+        for n in walk(F["body"]):
+            k = n.get("k")
+            if k == "call" and n["f"].get("k") == "path":
+                name, args, method = n["f"]["p"].split("::")[-1], n["args"], False
+            elif k == "mcall":
+                name, args, method = n["m"], n["args"], True
+            else:
+                continue
+            sigs = {tuple(pnames(g, method)) for g in by_name.get(name, []) if len(pnames(g, method)) == len(args)}
+            if len(sigs) != 1:
+                continue
+            gp = next(iter(sigs))
+            argn = [src(strip(a)) if strip(a).get("k") == "path" else None for a in args]
+            for i, a in enumerate(argn):
+                if a in fp and gp[i] in fp and gp[i] != a:
+                    for j, b in enumerate(argn):
+                        if j != i and b == gp[i] and gp[j] == a:
+                            out.append((F.get("qual") or F["name"], name, a, b))
+    return sorted(set(out))
+
+
 def option_match_as_iflet(m):
     """`match e { Some(p) => A, None | _ => B }` (either order) as the equivalent `if let Some(p) = e { A } else { B }` node; else None"""
     if not isinstance(m, dict) or m.get("k") != "match" or len(m.get("arms", [])) != 2 or any(a.get("guard") for a in m["arms"]):
